@@ -409,4 +409,96 @@ def run(chk):
     chk.ob("C03.T16", f"{P}.expand_entity", ok, "opens with the literal '~X~'", m.assigns["expand_entity"][0], m, key="opens")
     chk.ob("C03.T16", f"{P}.parameter", set(n for n in inner_names if n) >= {"parameter_text", "entities", "percent_encoding"} and all(inner_names),
            f"repetition alternatives are {inner_names}", m.assigns["parameter"][0], m, key="alts")
-    chk.assumptions += ["the round-trip lemma of DESIGN.md (C03) is a paper argument", "semantics of str.replace, urllib.parse.quote/unquote, pyparsing Literal/Regex/ZeroOrMore/ordered choice"]
+    model_roundtrip(chk, chk.tier)
+    chk.assumptions += ["the round-trip lemma of DESIGN.md (C03) is a paper argument (cross-checked on the extracted model by C03.M)", "semantics of str.replace, urllib.parse.quote/unquote, pyparsing Literal/Regex/ZeroOrMore/ordered choice"]
+
+
+# --------------------------------------------------------------------------- cross-check of the paper lemma on the extracted model
+def model_roundtrip(chk, tier):
+    """The lemma of DESIGN.md (C03) is a paper argument. As a cross-check of the *lemma* (not of the repository), the
+    writer model (extracted rows + urllib.parse.quote) and the reader model (an exact ordered-choice / greedy matcher over
+    the extracted alternatives of `parameter`, the constant expansions of the entity actions, then one unquote) are composed
+    on every string of up to N atoms over the structurally significant alphabet. The models are built only from the tables
+    and grammar IR extracted from the current source."""
+    import itertools
+    from urllib.parse import quote, unquote
+    repo = chk.repo
+    m, env, rows = extract(repo)
+    g = Grammar(m)
+    ESC = env["ESCAPE"]
+    rid = "C03.M"
+    chk.rule(rid, "lemma cross-check on the extracted model: decode_model(encode_model(x)) == x, the encoded text stays in "
+                  "[A-Za-z0-9_.~%]* and contains no separator, for every string of up to N atoms of the significant alphabet")
+    par = g.IR["parameter"]
+    star = [a for a in g.alternatives(par) if a.kind == "star"][0]
+    inner = g.alternatives(star.kids[0])
+    # flatten to ordered list of (kind, pattern, expansion-function)
+    alts = []
+    for a in inner:
+        node = g.IR[a.kw["name"]] if a.kind == "ref" else a
+        subs = g.alternatives(node)
+        for s_ in subs:
+            n = g.IR[s_.kw["name"]] if s_.kind == "ref" else s_
+            acts = n.kw.get("actions", [])
+            exp = lambda_const_result(acts[0]) if len(acts) == 1 else None
+            if n.kind == "lit":
+                alts.append(("lit", n.kw["s"], exp))
+            elif n.kind == "re":
+                special = None
+                if acts and exp is None:
+                    src = U(acts[0])
+                    if "'-' + toks[0][1:]" in src.replace('"', "'"):
+                        special = "neg"
+                    else:
+                        raise AnalysisError(f"C03.M: unsupported entity action `{src[:50]}`")
+                alts.append(("re", n.kw["s"], special))
+            else:
+                raise AnalysisError("C03.M: unsupported alternative shape in `parameter`")
+
+    def enc(x):
+        for s_, c, _ in rows:
+            x = x.replace(s_, c)
+        return quote(x).replace("%7E", "~").replace("%7e", "~")
+
+    def dec(t):
+        i, out = 0, []
+        while i < len(t):
+            for kind, pat, exp in alts:
+                if kind == "lit":
+                    if t.startswith(pat, i):
+                        out.append(exp if exp is not None else pat)
+                        i += len(pat)
+                        break
+                else:
+                    mt = re.compile(pat).match(t, i)
+                    if mt and mt.end() > i:
+                        tok = mt.group(0)
+                        out.append("-" + tok[1:] if exp == "neg" else tok)
+                        i = mt.end()
+                        break
+            else:
+                return None      # the reader stops here: the rest is not part of the parameter
+        return unquote("".join(out))
+
+    atoms = [ESC, env["PARAMETER_SEPARATOR"], env["COMMAND_SEPARATOR"], " ", "%", "+", "a", "1", ".", "_", ESC + "_", "%20", "://", "https://",
+             "é", ESC + "X" + ESC, ESC + "E", ESC + ESC, "I", "H"]
+    N = 2 if tier == "quick" else 3
+    bad = []
+    n = 0
+    allowed = set(string.ascii_letters + string.digits + "_.~%")
+    for L in range(0, N + 1):
+        for combo in itertools.product(atoms, repeat=L):
+            x = "".join(combo)
+            e = enc(x)
+            n += 1
+            if dec(e) != x or not set(e) <= allowed or env["PARAMETER_SEPARATOR"] in e or env["COMMAND_SEPARATOR"] in e:
+                bad.append((x, e, dec(e)))
+                if len(bad) > 5:
+                    break
+    chk.count("C03.M strings", n)
+    chk.ob(rid, f"{P}.ESCAPE_SEQUENCES", not bad, f"{n} strings of up to {N} atoms round-trip through the extracted writer/reader models" if not bad else
+           f"model counter-example: {bad[0][0]!r} -> {bad[0][1]!r} -> {bad[0][2]!r}", m.assigns["ESCAPE_SEQUENCES"][0], m, key="model")
+
+
+def run_thorough(chk):
+    pass
